@@ -1210,8 +1210,21 @@ func (fv *FV) callByContract(st *State, c *Contract, fn *types.Func, sig *types.
 	}
 	full := c.Key()
 	short := shortName(full)
-	fv.cnt["call:"+short]++
-	k := fv.cnt["call:"+short]
+	// the ordinal names the call SITE (k-th distinct site calling this callee, in
+	// first-encounter order), not the execution: a deferred closure run on every
+	// return path, or a call moved within the body, keeps its obligation names
+	siteKey := "callsite:" + short + "@"
+	if call != nil {
+		siteKey += fmt.Sprint(call.Pos())
+	} else {
+		fv.cnt["call:"+short+":anon"]++
+		siteKey += fmt.Sprint("anon", fv.cnt["call:"+short+":anon"])
+	}
+	if fv.cnt[siteKey] == 0 {
+		fv.cnt["call:"+short]++
+		fv.cnt[siteKey] = fv.cnt["call:"+short]
+	}
+	k := fv.cnt[siteKey]
 	names := map[string]Val{}
 	for i, n := range c.Params {
 		if i < len(all) {
